@@ -244,3 +244,49 @@ func zzH_C12_discardRemote() {
 }
 
 func zzAddFunc() (slicefunc.Func, bool) { return slicefunc.Of(zzAdd64) }
+
+// zzH_C06_localRunLostDep: a task whose combined dependency has lost its
+// output (discarded or never stored): reading the dependency fails before the
+// task body runs. The task must end LOST (so that the evaluator recomputes the
+// dependency) and the limiter must still be released.
+func zzH_C06_localRunLostDep() {
+	zzRegisterKey()
+	zzConstHash = true
+	defer func() { zzConstHash = false }()
+	old := *defaultChunksize
+	*defaultChunksize = 2
+	defer func() { *defaultChunksize = old }()
+	p := zz.AnyIntIn("parallelism", 1, 3)
+	excl := zz.AnyBool("exclusive")
+	l := newLocalExecutor()
+	l.sess = &Session{p: p}
+	zzInUse, zzMaxInUse, zzAcquires, zzReleases = 0, 0, nil, nil
+	fn, _ := zzAddFunc()
+	dep := &Task{Name: TaskName{Op: "dep", NumShard: 1}, Type: zzCombTyp, NumPartition: 1, Combiner: fn, state: TaskOk}
+	stored := zz.AnyBool("depOutputStored")
+	if stored {
+		n := zz.AnyIntIn("rows", 0, 2)
+		ks, vs := make([]zzKey, n), make([]int64, n)
+		for i := range ks {
+			ks[i], vs[i] = zzKey(zz.AnyInt64("key")), zz.AnyInt64("val")
+		}
+		l.buffers[dep] = taskBuffer{{frame.Slices(ks, vs)}}
+	}
+	task := &Task{Name: TaskName{Op: "t", NumShard: 1}, Type: zzCombTyp, NumPartition: 1, Pragma: zzExclPragma{excl}, Deps: []TaskDep{{Head: dep}}}
+	task.state = TaskWaiting
+	task.Do = func(in []sliceio.Reader) sliceio.Reader { return in[0] }
+	l.Run(task)
+	want := 1
+	if excl {
+		want = p
+	}
+	zz.Assert(len(zzAcquires) == 1 && zzAcquires[0] == want, "a task acquires one token, an exclusive task all of them")
+	zz.Assert(len(zzReleases) == 1 && zzReleases[0] == want && zzInUse == 0, "the limiter is released exactly once with what was acquired, also when reading a dependency fails")
+	if stored {
+		zz.Reach("dependency read")
+		zz.Assert(task.state == TaskOk, "a task with a readable combined dependency succeeds")
+	} else {
+		zz.Reach("dependency output lost")
+		zz.Assert(task.state == TaskLost, "a task whose dependency output is gone is LOST, not failed")
+	}
+}
